@@ -29,11 +29,16 @@ type Link struct {
 	Alt *Link
 }
 
-// Policy chooses the read-buffer size: fixed D, or pending + D.
+// Policy chooses the read-buffer size: fixed D, or pending + D. Zeros, when set, additionally interleaves
+// ZERO-LENGTH Reads (len(buf) == 0, which "every sequence of read-buffer sizes" contains): before the i-th
+// non-empty Read of a transfer the reader issues Zeros[i mod len(Zeros)] Reads with an empty buffer. Such a
+// Read must return n = 0 and must not consume, drop or reorder anything: the bytes returned by the Reads
+// that follow are judged exactly as without it.
 type Policy struct {
-	Name string
-	Rel  bool
-	D    int
+	Name  string
+	Rel   bool
+	D     int
+	Zeros []int
 }
 
 func Fixed(d int) Policy { return Policy{Name: fmt.Sprintf("r=%d", d), D: d} }
@@ -42,6 +47,13 @@ func Rel(d int) Policy {
 		return Policy{Name: "r=pending", Rel: true}
 	}
 	return Policy{Name: fmt.Sprintf("r=pending%+d", d), Rel: true, D: d}
+}
+
+// WithZeros returns the policy with zero-length Reads interleaved following the cyclic pattern z.
+func (p Policy) WithZeros(z ...int) Policy {
+	p.Zeros = append([]int(nil), z...)
+	p.Name += ",zero-length reads" + strings.ReplaceAll(fmt.Sprint(z), " ", ",")
+	return p
 }
 
 func (p Policy) Size(pending int) int {
@@ -101,7 +113,7 @@ func (l *Link) Transfer(payload []byte, writes []int, each bool, pol Policy, buf
 }
 
 func (l *Link) transfer(payload []byte, writes []int, each bool, pol Policy, buf []byte) *Transfer {
-	tr := &Transfer{W: l.W, R: l.R, Payload: payload, Writes: writes, DrainEach: each, Buf: buf, Before: l.Before, After: l.After}
+	tr := &Transfer{W: l.W, R: l.R, Payload: payload, Writes: writes, DrainEach: each, Buf: buf, Before: l.Before, After: l.After, Zeros: pol.Zeros}
 	tr.ReadSize = func(received, accepted int) int {
 		if l.Pending != nil {
 			return pol.Size(l.Pending())
